@@ -400,6 +400,59 @@ func authErrorOnBlock(b *ssa.BasicBlock) bool {
 	return false
 }
 
+// authBytes: v is the byte result of an Authenticate* call: directly, as a phi of such results and nil, or as the
+// result of a helper of the same package all of whose returns hand back such a result or nil.
+func authBytes(v ssa.Value, home *ssa.Function, depth int) bool {
+	if depth > 2 {
+		return false
+	}
+	switch x := v.(type) {
+	case *ssa.Extract:
+		cl, ok := x.Tuple.(*ssa.Call)
+		if !ok || x.Index != 0 {
+			return false
+		}
+		sc := cl.Call.StaticCallee()
+		if sc == nil {
+			return false
+		}
+		if strings.HasPrefix(sc.Name(), "Authenticate") {
+			return true
+		}
+		if sc.Pkg != home.Pkg || len(sc.Blocks) == 0 {
+			return false
+		}
+		some, all := false, true
+		allInstrs(sc, func(in ssa.Instruction) {
+			ret, ok := in.(*ssa.Return)
+			if !ok || len(ret.Results) == 0 {
+				return
+			}
+			switch {
+			case isNilConst(ret.Results[0]):
+			case authBytes(ret.Results[0], home, depth+1):
+				some = true
+			default:
+				all = false
+			}
+		})
+		return some && all
+	case *ssa.Phi:
+		some := false
+		for _, e := range x.Edges {
+			switch {
+			case isNilConst(e):
+			case authBytes(e, home, depth+1):
+				some = true
+			default:
+				return false
+			}
+		}
+		return some
+	}
+	return false
+}
+
 func checkOpenCleanup(c *Ctx, r *Report) {
 	rule := "C10/cleanup-requeue"
 	open := c.LookupFunc("channel", "Channel", "Open")
@@ -463,23 +516,8 @@ func checkOpenCleanup(c *Ctx, r *Report) {
 	for _, ci := range staticCallsTo(open, requeue) {
 		call := ci.(*ssa.Call)
 		arg := call.Call.Args[1]
-		// arg: (phi of) results of the Authenticate* calls
-		fromAuth := false
-		check := func(v ssa.Value) {
-			if ex, ok := v.(*ssa.Extract); ok {
-				if cl, ok := ex.Tuple.(*ssa.Call); ok {
-					if sc := cl.Call.StaticCallee(); sc != nil && strings.HasPrefix(sc.Name(), "Authenticate") {
-						fromAuth = true
-					}
-				}
-			}
-		}
-		check(arg)
-		if phi, ok := arg.(*ssa.Phi); ok {
-			for _, e := range phi.Edges {
-				check(e)
-			}
-		}
+		// arg: (phi of) results of the Authenticate* calls, possibly handed through a helper of this package
+		fromAuth := authBytes(arg, open, 0)
 		// guarded only by len(b) > 0 (or != 0)
 		guardOK := guardedBy(call, func(v ssa.Value, t bool) bool {
 			bo, ok := v.(*ssa.BinOp)
